@@ -6,7 +6,7 @@
 From Coq Require Import ZArith.
 From V.model Require Import Base Deb822Lex Deb822Parse Grammar Lossy LossySpec Derive TypedDocs.
 From V.gen Require Import Structs_gen.
-From V.proofs Require Import BaseP Deb822LexP Deb822ParseP GrammarAccP LossyP LossyRtP DeriveP TypedCodecP TypedCanonP.
+From V.proofs Require Import BaseP Deb822LexP Deb822ParseP GrammarAccP LossyP LossyRtP DeriveP TypedCodecP TypedCanonP TypedLossyP.
 
 (* ------------------------------------------------------------------ what the readers show for a printed document *)
 Definition norm_pair (kv : str * str) : str * str := (fst kv, ll_norm (snd kv)).
@@ -172,9 +172,12 @@ Section Ext.
 Variable E : Type.
 Variable ext_print : N -> E -> str.
 Variable ext_parse : N -> str -> option E.
+(* the guard of the external codecs' known classes ((fun _ _ => true) when they are left abstract) *)
+Variable G : N -> str -> bool.
 Notation sval := (list (option (uval E))).
 Notation good := (good E ext_print ext_parse).
-Notation ext_stable := (ext_stable E ext_print ext_parse).
+Notation ext_stable := (ext_stable_on E ext_print ext_parse G).
+Notation eguard := (ext_guard G).
 Notation items_of := (present_items E ext_print).
 Notation from_ll := (from_ll E ext_parse).
 Notation from_lossy := (from_lossy E ext_parse).
@@ -192,12 +195,17 @@ Lemma good_to_lossy ll fs v : good ll fs v -> to_lossy fs v = Some (items_of fs 
 Proof. intros (H & _). unfold TypedDocs.to_lossy, to_paragraph. rewrite H. reflexivity. Qed.
 Lemma good_print ll fs v : good ll fs v -> print_struct fs v = Some (print_para (items_of fs v)).
 Proof. intros H. unfold TypedDocs.print_struct. rewrite (good_to_lossy _ _ _ H). reflexivity. Qed.
-Lemma good_canon ll fs v : good ll fs v -> forallb canon_field (items_of fs v) = true.
+Lemma good_canon fs v : good true fs v -> forallb canon_field (items_of fs v) = true.
 Proof. intros (_ & H & _). exact H. Qed.
 
-Lemma good_nonempty ll fs v k : good ll fs v -> In k (present_keys E fs v) -> canon_para (items_of fs v) = true.
+Lemma good_nonempty fs v k : good true fs v -> In k (present_keys E fs v) -> canon_para (items_of fs v) = true.
 Proof.
-  intros Hg Hin. unfold canon_para. pose proof (good_canon _ _ _ Hg) as Hc.
+  intros Hg Hin. unfold canon_para. pose proof (good_canon _ _ Hg) as Hc.
+  destruct (items_of fs v) eqn:Ei; [|exact Hc]. destruct Hg as (_ & _ & Hk & _). rewrite Ei in Hk. cbn in Hk. rewrite <- Hk in Hin. contradiction.
+Qed.
+Lemma good_nonempty_l fs v k : good false fs v -> In k (present_keys E fs v) -> lcanon_para (items_of fs v) = true.
+Proof.
+  intros Hg Hin. unfold lcanon_para. assert (Hc : forallb lcanon_field (items_of fs v) = true) by (destruct Hg as (_ & H & _); exact H).
   destruct (items_of fs v) eqn:Ei; [|exact Hc]. destruct Hg as (_ & _ & Hk & _). rewrite Ei in Hk. cbn in Hk. rewrite <- Hk in Hin. contradiction.
 Qed.
 
@@ -223,12 +231,21 @@ Qed.
 (* values read from a strictly parsed paragraph *)
 Definition para_dom (p : tree) : Prop := forall k x, get p k = Some x -> dom true x.
 
-Lemma read_ll_good fs p v : ok_struct_stable fs = true -> ext_stable true (ext_ids fs) -> hash_guard fs (get p) = true ->
-  para_dom p -> from_ll fs p = DOk v -> good true fs v.
-Proof. intros Hok Hext Hg Hd Hv. eapply read_value_good; eassumption. Qed.
+Lemma read_ll_good fs p v : ok_struct_stable fs = true -> ext_stable true (ext_ids fs) -> eguard fs (get p) = true ->
+  hash_guard fs (get p) = true -> para_dom p -> from_ll fs p = DOk v -> good true fs v.
+Proof. intros Hok Hext HG Hg Hd Hv. eapply read_value_good; eassumption. Qed.
 
-Lemma ext_stable_incl ll a b : (forall i, In i a -> In i b) -> ext_stable ll b -> ext_stable ll a.
-Proof. intros Hi H i x e Hin. apply H. apply Hi. exact Hin. Qed.
+(* the guards a control paragraph has to satisfy: those of the role it is read as *)
+Definition control_guard (p : tree) : bool :=
+  match get p k_Package with
+  | Some _ => eguard fs_control_binary (get p)
+  | None => match get p k_Source with Some _ => eguard fs_control_source (get p) | None => true end
+  end.
+Definition copyright_guard (p : tree) : bool :=
+  match get p k_Files with
+  | Some _ => eguard fs_files (get p)
+  | None => match get p k_License with Some _ => eguard fs_license (get p) | None => true end
+  end.
 
 (* ================================================================== control *)
 Definition goodS (s : sval) : Prop := good true fs_control_source s /\ In k_Source (present_keys E fs_control_source s).
@@ -236,24 +253,24 @@ Definition goodB (b : sval) : Prop := good true fs_control_binary b /\ In k_Pack
 
 Lemma control_loop_good ps : forall src bins c,
   ext_stable true (ext_ids fs_control_source) -> ext_stable true (ext_ids fs_control_binary) ->
-  (forall p, In p ps -> para_dom p) ->
+  (forall p, In p ps -> para_dom p /\ control_guard p = true) ->
   control_loop E ext_parse ps src bins = TOk c ->
   (forall s0, src = Some s0 -> goodS s0) -> Forall goodB bins ->
   goodS (c_source c) /\ Forall goodB (c_binaries c).
 Proof.
   induction ps as [|p r IH]; intros src bins c HeS HeB Hd H Hsrc Hb; cbn [control_loop] in H.
   - destruct src as [s0|]; [|discriminate]. injection H as <-. cbn [c_source c_binaries]. split; [apply Hsrc; reflexivity|exact Hb].
-  - assert (Hdp : para_dom p) by (apply Hd; left; reflexivity).
-    assert (Hdr : forall q, In q r -> para_dom q) by (intros q Hq; apply Hd; right; exact Hq).
+  - destruct (Hd p (or_introl eq_refl)) as [Hdp Hgp]. unfold control_guard in Hgp.
+    assert (Hdr : forall q, In q r -> para_dom q /\ control_guard q = true) by (intros q Hq; apply Hd; right; exact Hq).
     destruct (get p k_Package) as [pk|] eqn:Ep.
     + destruct (from_ll fs_control_binary p) as [b|e] eqn:Eb; [|discriminate]. cbn [of_dres] in H.
       apply (IH _ _ _ HeS HeB Hdr H Hsrc). apply Forall_app. split; [exact Hb|]. constructor; [|constructor].
-      split; [eapply read_ll_good; [apply ok_B|exact HeB|apply no_hash_guard, nh_B|exact Hdp|exact Eb]|].
+      split; [eapply read_ll_good; [apply ok_B|exact HeB|exact Hgp|apply no_hash_guard, nh_B|exact Hdp|exact Eb]|].
       eapply read_mandatory_present; [exact Eb|apply mand_B_Package].
     + destruct (get p k_Source) as [sk|] eqn:Es; [|discriminate]. destruct src as [s0|]; [discriminate|].
       destruct (from_ll fs_control_source p) as [s1|e] eqn:E1; [|discriminate]. cbn [of_dres] in H.
       apply (IH _ _ _ HeS HeB Hdr H); [|exact Hb]. intros s0 Hs0. injection Hs0 as <-.
-      split; [eapply read_ll_good; [apply ok_S|exact HeS|apply no_hash_guard, nh_S|exact Hdp|exact E1]|].
+      split; [eapply read_ll_good; [apply ok_S|exact HeS|exact Hgp|apply no_hash_guard, nh_S|exact Hdp|exact E1]|].
       eapply read_mandatory_present; [exact E1|apply mand_S_Source].
 Qed.
 
@@ -271,12 +288,14 @@ Qed.
 
 Theorem control_stable s c :
   ext_stable true (ext_ids fs_control_source) -> ext_stable true (ext_ids fs_control_binary) ->
+  (forall t, from_str s = Ok t -> forallb control_guard (paragraphs t) = true) ->
   parse_control E ext_parse s = TOk c ->
   exists t, print_control E ext_print c = Some t /\ parse_control E ext_parse t = TOk c.
 Proof.
-  intros HeS HeB H. unfold parse_control in H. destruct (from_str s) as [t0| | |] eqn:Es; try discriminate. cbn [of_res] in H.
-  assert (Hd : forall p, In p (paragraphs t0) -> para_dom p).
-  { intros p Hp k x Hg. cbn [dom]. eapply strict_parse_get_dom; eassumption. }
+  intros HeS HeB HG H. unfold parse_control in H. destruct (from_str s) as [t0| | |] eqn:Es; try discriminate. cbn [of_res] in H.
+  specialize (HG t0 eq_refl).
+  assert (Hd : forall p, In p (paragraphs t0) -> para_dom p /\ control_guard p = true).
+  { intros p Hp. split; [intros k x Hg; cbn [dom]; eapply strict_parse_get_dom; eassumption|]. rewrite forallb_forall in HG. apply HG. exact Hp. }
   destruct (control_loop_good _ _ _ _ HeS HeB Hd H) as [[HgS HkS] HgB]; [discriminate|constructor|].
   destruct c as [cs cb]. cbn [c_source c_binaries] in *.
   set (D := items_of fs_control_source cs :: map (items_of fs_control_binary) cb).
@@ -286,8 +305,8 @@ Proof.
     - unfold D. rewrite print_doc_cons, !flat_map_concat_map, !map_map. reflexivity.
     - intros b Hb. rewrite Forall_forall in HgB. apply (good_print true). apply (HgB b Hb). }
   assert (Hcanon : canon_doc D = true).
-  { unfold D. cbn [canon_doc forallb]. rewrite (good_nonempty _ _ _ _ HgS HkS). cbn [andb].
-    rewrite forallb_map'. apply forallb_forall. intros b Hb. rewrite Forall_forall in HgB. destruct (HgB b Hb) as [G K].
+  { unfold D. cbn [canon_doc forallb]. rewrite (good_nonempty _ _ _ HgS HkS). cbn [andb].
+    rewrite forallb_map'. apply forallb_forall. intros b Hb. rewrite Forall_forall in HgB. destruct (HgB b Hb) as [Gd K].
     eapply good_nonempty; eassumption. }
   destruct (ll_reread D Hcanon) as (t' & Ht' & Hitems).
   exists (print_doc D). split; [exact Hprint|]. unfold parse_control. rewrite Ht'. cbn [of_res].
@@ -307,25 +326,25 @@ Definition para_hash_free (p : tree) : bool := hash_guard fs_header (get p) && h
 
 Lemma copyright_loop_good ps : forall files licenses fl,
   ext_stable true (ext_ids fs_files) -> ext_stable true (ext_ids fs_license) ->
-  (forall p, In p ps -> para_dom p /\ para_hash_free p = true) ->
+  (forall p, In p ps -> para_dom p /\ para_hash_free p = true /\ copyright_guard p = true) ->
   copyright_loop E ext_parse ps files licenses = TOk fl ->
   Forall goodF files -> Forall goodL licenses ->
   Forall goodF (fst fl) /\ Forall goodL (snd fl).
 Proof.
   induction ps as [|p r IH]; intros files licenses fl HeF HeL Hd H HF HL; cbn [copyright_loop] in H.
   - injection H as <-. cbn [fst snd]. auto.
-  - destruct (Hd p (or_introl eq_refl)) as [Hdp Hhp].
-    assert (Hdr : forall q, In q r -> para_dom q /\ para_hash_free q = true) by (intros q Hq; apply Hd; right; exact Hq).
+  - destruct (Hd p (or_introl eq_refl)) as (Hdp & Hhp & Hgp). unfold copyright_guard in Hgp.
+    assert (Hdr : forall q, In q r -> para_dom q /\ para_hash_free q = true /\ copyright_guard q = true) by (intros q Hq; apply Hd; right; exact Hq).
     destruct (get p k_Files) as [fk|] eqn:Ef.
     + destruct (from_ll fs_files p) as [f|e] eqn:E1; [|discriminate]. cbn [of_dres] in H.
       apply (IH _ _ _ HeF HeL Hdr H); [|exact HL]. apply Forall_app. split; [exact HF|]. constructor; [|constructor].
-      split; [eapply read_ll_good; [apply ok_F|exact HeF| |exact Hdp|exact E1]|].
+      split; [eapply read_ll_good; [apply ok_F|exact HeF|exact Hgp| |exact Hdp|exact E1]|].
       * unfold para_hash_free in Hhp. apply andb_true_iff in Hhp. apply Hhp.
       * eapply read_mandatory_present; [exact E1|apply mand_F_Files].
     + destruct (get p k_License) as [lk|] eqn:El; [|discriminate].
       destruct (from_ll fs_license p) as [l|e] eqn:E1; [|discriminate]. cbn [of_dres] in H.
       apply (IH _ _ _ HeF HeL Hdr H); [exact HF|]. apply Forall_app. split; [exact HL|]. constructor; [|constructor].
-      split; [eapply read_ll_good; [apply ok_L|exact HeL|apply no_hash_guard, nh_L|exact Hdp|exact E1]|].
+      split; [eapply read_ll_good; [apply ok_L|exact HeL|exact Hgp|apply no_hash_guard, nh_L|exact Hdp|exact E1]|].
       eapply read_mandatory_present; [exact E1|apply mand_L_License].
 Qed.
 
@@ -363,20 +382,24 @@ Qed.
 Theorem copyright_stable s c :
   ext_stable true (ext_ids fs_header) -> ext_stable true (ext_ids fs_files) -> ext_stable true (ext_ids fs_license) ->
   (forall t, from_str s = Ok t -> forallb para_hash_free (paragraphs t) = true) ->
+  (forall t, from_str s = Ok t -> eguard fs_header (get (hd (Tok ROOT []) (paragraphs t))) = true /\
+                                  forallb copyright_guard (tl (paragraphs t)) = true) ->
   parse_copyright E ext_parse s = TOk c ->
   exists t, print_copyright E ext_print c = Some t /\ parse_copyright E ext_parse t = TOk c.
 Proof.
-  intros HeH HeF HeL Hhash H. unfold parse_copyright in H. destruct (negb (starts_with s s_Format_colon)); [discriminate|].
-  destruct (from_str s) as [t0| | |] eqn:Es; try discriminate. cbn [of_res] in H. specialize (Hhash t0 eq_refl).
-  assert (Hd : forall p, In p (paragraphs t0) -> para_dom p /\ para_hash_free p = true).
+  intros HeH HeF HeL Hhash HG H. unfold parse_copyright in H. destruct (negb (starts_with s s_Format_colon)); [discriminate|].
+  destruct (from_str s) as [t0| | |] eqn:Es; try discriminate. cbn [of_res] in H. specialize (Hhash t0 eq_refl). destruct (HG t0 eq_refl) as [HGh HGr].
+  assert (Hd0 : forall p, In p (paragraphs t0) -> para_dom p /\ para_hash_free p = true).
   { intros p Hp. split; [intros k x Hg; cbn [dom]; eapply strict_parse_get_dom; eassumption|]. rewrite forallb_forall in Hhash. apply Hhash. exact Hp. }
-  destruct (paragraphs t0) as [|first rest]; [discriminate|].
+  destruct (paragraphs t0) as [|first rest]; [discriminate|]. cbn [hd tl] in HGh, HGr.
+  assert (Hd : forall p, In p rest -> para_dom p /\ para_hash_free p = true /\ copyright_guard p = true).
+  { intros p Hp. destruct (Hd0 p (or_intror Hp)) as [A B]. split; [exact A|]. split; [exact B|]. rewrite forallb_forall in HGr. apply HGr. exact Hp. }
   destruct (from_ll fs_header first) as [h|e] eqn:Eh; [|discriminate]. cbn [of_dres] in H.
   destruct (copyright_loop E ext_parse rest [] []) as [fl| | |] eqn:El; try discriminate. cbn [tbind] in H. injection H as <-.
-  destruct (Hd first (or_introl eq_refl)) as [Hdf Hhf].
+  destruct (Hd0 first (or_introl eq_refl)) as [Hdf Hhf].
   assert (HgH : good true fs_header h).
-  { eapply read_ll_good; [apply ok_H|exact HeH| |exact Hdf|exact Eh]. unfold para_hash_free in Hhf. apply andb_true_iff in Hhf. apply Hhf. }
-  destruct (copyright_loop_good rest [] [] fl HeF HeL (fun q Hq => Hd q (or_intror Hq)) El) as [HgF HgL]; [constructor|constructor|].
+  { eapply read_ll_good; [apply ok_H|exact HeH|exact HGh| |exact Hdf|exact Eh]. unfold para_hash_free in Hhf. apply andb_true_iff in Hhf. apply Hhf. }
+  destruct (copyright_loop_good rest [] [] fl HeF HeL Hd El) as [HgF HgL]; [constructor|constructor|].
   destruct fl as [cf cl]. cbn [fst snd cr_header cr_files cr_licenses] in *.
   destruct header_first as (f0 & r0 & Efs & Ek0 & Eo0).
   assert (Hfmt : exists y rest, items_of fs_header h = (k_Format, y) :: rest).
@@ -396,10 +419,10 @@ Proof.
     rewrite (map_opt_map _ (fun b => print_para (items_of fs_license b))) by (intros b Hb; rewrite Forall_forall in HgL; apply (good_print true); apply (HgL b Hb)).
     unfold D. rewrite print_doc_cons, flat_map_app, !flat_map_concat_map, !map_map. reflexivity. }
   assert (Hcanon : canon_doc D = true).
-  { unfold D. cbn [canon_doc forallb]. rewrite (good_nonempty _ _ _ _ HgH HkH). cbn [andb]. rewrite forallb_app, !forallb_map'.
+  { unfold D. cbn [canon_doc forallb]. rewrite (good_nonempty _ _ _ HgH HkH). cbn [andb]. rewrite forallb_app, !forallb_map'.
     apply andb_true_iff. split; apply forallb_forall; intros b Hb.
-    - rewrite Forall_forall in HgF. destruct (HgF b Hb) as [G K]. eapply good_nonempty; eassumption.
-    - rewrite Forall_forall in HgL. destruct (HgL b Hb) as [G K]. eapply good_nonempty; eassumption. }
+    - rewrite Forall_forall in HgF. destruct (HgF b Hb) as [Gd K]. eapply good_nonempty; eassumption.
+    - rewrite Forall_forall in HgL. destruct (HgL b Hb) as [Gd K]. eapply good_nonempty; eassumption. }
   destruct (ll_reread D Hcanon) as (t' & Ht' & Hitems).
   exists (print_doc D). split; [exact Hprint|]. unfold parse_copyright.
   assert (Hgate : starts_with (print_doc D) s_Format_colon = true).
@@ -435,15 +458,17 @@ Qed.
 
 Theorem ll1_stable fs s v :
   ok_struct_stable fs = true -> no_hash_pairs fs = true -> has_mandatory fs = true -> ext_stable true (ext_ids fs) ->
+  (forall t, from_str s = Ok t -> eguard fs (get (hd (Tok ROOT []) (paragraphs t))) = true) ->
   parse_ll1 E ext_parse fs s = TOk v ->
   exists t, print_struct fs v = Some t /\ parse_ll1 E ext_parse fs t = TOk v.
 Proof.
-  intros Hok Hnh Hm He H. destruct (parse_ll1_inv _ _ _ H) as (t0 & p & r & Es & Ep & Ev).
+  intros Hok Hnh Hm He HG H. destruct (parse_ll1_inv _ _ _ H) as (t0 & p & r & Es & Ep & Ev).
+  specialize (HG t0 Es). rewrite Ep in HG. cbn [hd] in HG.
   assert (Hd : para_dom p).
   { intros k x Hg. cbn [dom]. eapply strict_parse_get_dom; [exact Es|rewrite Ep; left; reflexivity|exact Hg]. }
-  pose proof (read_ll_good _ _ _ Hok He (no_hash_guard _ _ Hnh) Hd Ev) as Hg.
+  pose proof (read_ll_good _ _ _ Hok He HG (no_hash_guard _ _ Hnh) Hd Ev) as Hg.
   destruct (has_mandatory_key _ Hm) as (k & Hk). rewrite from_ll_fields in Ev. pose proof (read_mandatory_present _ _ _ _ _ _ Ev Hk) as Hin.
-  pose proof (good_nonempty _ _ _ _ Hg Hin) as Hc. destruct (paragraph_reread _ Hc) as (p' & Hp' & Hs).
+  pose proof (good_nonempty _ _ _ Hg Hin) as Hc. destruct (paragraph_reread _ Hc) as (p' & Hp' & Hs).
   exists (print_para (items_of fs v)). split; [apply (good_print true); exact Hg|].
   unfold parse_ll1. rewrite Hp'. cbn [of_res_para]. rewrite (reread_ll _ _ _ Hg Hs). reflexivity.
 Qed.
@@ -483,13 +508,16 @@ Proof.
 Qed.
 
 Theorem dep3_stable s v :
-  ext_stable true (ext_ids fs_dep3) -> parse_dep3 E ext_parse s = TOk v -> present_keys E fs_dep3 v <> [] ->
+  ext_stable true (ext_ids fs_dep3) ->
+  (forall t, from_str s = Ok t -> eguard fs_dep3 (get (hd (Tok ROOT []) (paragraphs t))) = true) ->
+  parse_dep3 E ext_parse s = TOk v -> present_keys E fs_dep3 v <> [] ->
   exists t, print_dep3 E ext_print v = Some t /\ parse_dep3 E ext_parse t = TOk v.
 Proof.
-  intros He H Hne. unfold parse_dep3, paragraph_from_str in H. destruct (from_str s) as [t0| | |] eqn:Es; cbn [of_res_para] in H; try discriminate;
+  intros He HG H Hne. unfold parse_dep3, paragraph_from_str in H. destruct (from_str s) as [t0| | |] eqn:Es; cbn [of_res_para] in H; try discriminate;
     [|destruct (e =? 2)%N; discriminate].
   destruct (paragraphs t0) as [|p r] eqn:Ep; cbn [of_res_para] in H; [discriminate|].
   destruct (from_ll fs_dep3 p) as [h|] eqn:Eh; cbn [of_dres] in H; [|discriminate]. injection H as <-.
+  specialize (HG t0 eq_refl). rewrite Ep in HG. cbn [hd] in HG.
   assert (Hd : para_dom p).
   { intros k x Hg. cbn [dom]. eapply strict_parse_get_dom; [exact Es|rewrite Ep; left; reflexivity|exact Hg]. }
   rewrite from_ll_fields in Eh.
@@ -497,11 +525,17 @@ Proof.
   pose proof (fallback_fields _ _ k_Description (get p k_Subject) _ dep3_Description H1) as H2.
   set (v := fallback E fs_dep3 (fallback E fs_dep3 h k_Author (get p k_From)) k_Description (get p k_Subject)) in *.
   assert (Hg : good true fs_dep3 v).
-  { eapply read_value_good; [apply ok_dep3|exact He|apply no_hash_guard, nh_dep3| |exact H2].
+  { eapply read_value_good; [apply ok_dep3|exact He| |apply no_hash_guard, nh_dep3| |exact H2].
+    { (* the fallback getter answers like get p on every key of the struct (From / Subject are not fields) *)
+      unfold ext_guard in *. rewrite forallb_forall in *. intros f Hf. specialize (HG f Hf). destruct (f_de f) eqn:Ed; try reflexivity.
+      assert (Hpo : forall k, plain_opt_string fs_dep3 k = true -> str_eqb (f_key f) k = false).
+      { intros k Hk. unfold plain_opt_string in Hk. rewrite forallb_forall in Hk. specialize (Hk f Hf). rewrite Ed in Hk.
+        destruct (str_eqb (f_key f) k); [discriminate|reflexivity]. }
+      rewrite (Hpo _ dep3_Description), (Hpo _ dep3_Author). exact HG. }
     assert (Hany : forall k' x', get p k' = Some x' -> dom true x') by (intros k' x' Hg'; apply (Hd k' x' Hg')).
     apply fb_dom; [apply fb_dom; [exact Hany|]|]; intros a Ha; eapply Hany; exact Ha. }
   assert (Hin : exists k, In k (present_keys E fs_dep3 v)) by (destruct (present_keys E fs_dep3 v) as [|k ?]; [congruence|exists k; left; reflexivity]).
-  destruct Hin as (k & Hin). pose proof (good_nonempty _ _ _ _ Hg Hin) as Hc. destruct (paragraph_reread _ Hc) as (p' & Hp' & Hs).
+  destruct Hin as (k & Hin). pose proof (good_nonempty _ _ _ Hg Hin) as Hc. destruct (paragraph_reread _ Hc) as (p' & Hp' & Hs).
   exists (print_para (items_of fs_dep3 v)). split; [apply (good_print true); exact Hg|].
   unfold parse_dep3. rewrite Hp'. cbn [of_res_para]. rewrite (reread_ll _ _ _ Hg Hs). cbn [of_dres].
   rewrite (reread_ll_absent _ _ _ _ Hg Hs dep3_no_From), (reread_ll_absent _ _ _ _ Hg Hs dep3_no_Subject), !fallback_none. reflexivity.
@@ -510,27 +544,28 @@ Qed.
 (* ================================================================== one paragraph through the lossy reader *)
 Theorem lossy1_stable fs s p v :
   ok_struct_stable fs = true -> no_hash_pairs fs = true -> has_mandatory fs = true -> ext_stable false (ext_ids fs) ->
-  lossy_paragraph_from_str s = Ok p -> canon_para p = true ->
+  lossy_paragraph_from_str s = Ok p -> lcanon_para p = true -> eguard fs (l_get p) = true ->
   parse_lossy1 E ext_parse fs s = TOk v ->
   exists t, print_struct fs v = Some t /\ parse_lossy1 E ext_parse fs t = TOk v.
 Proof.
-  intros Hok Hnh Hm He Hp Hc H. unfold parse_lossy1 in H. rewrite Hp in H. cbn [of_res] in H.
+  intros Hok Hnh Hm He Hp Hc HG H. unfold parse_lossy1 in H. rewrite Hp in H. cbn [of_res] in H.
   destruct (from_lossy fs p) as [v'|] eqn:Ev; cbn [of_dres] in H; [|discriminate]. injection H as <-.
   rewrite from_lossy_fields in Ev.
   assert (Hg : good false fs v').
-  { eapply read_value_good; [exact Hok|exact He|apply no_hash_guard; exact Hnh| |exact Ev].
-    intros k x Hx. cbn [dom]. apply l_get_In in Hx. unfold canon_para in Hc. destruct p; [discriminate|].
-    rewrite forallb_forall in Hc. specialize (Hc _ Hx). unfold canon_field in Hc. apply andb_true_iff in Hc. apply Hc. }
+  { eapply read_value_good; [exact Hok|exact He|exact HG|apply no_hash_guard; exact Hnh| |exact Ev].
+    intros k x Hx. cbn [dom]. apply l_get_In in Hx. unfold lcanon_para in Hc. destruct p; [discriminate|].
+    rewrite forallb_forall in Hc. specialize (Hc _ Hx). unfold lcanon_field in Hc. apply andb_true_iff in Hc. apply Hc. }
   destruct (has_mandatory_key _ Hm) as (k & Hk). pose proof (read_mandatory_present _ _ _ _ _ _ Ev Hk) as Hin.
-  pose proof (good_nonempty _ _ _ _ Hg Hin) as Hcp.
+  pose proof (good_nonempty_l _ _ _ Hg Hin) as Hcp.
   exists (print_para (items_of fs v')). split; [apply (good_print false); exact Hg|].
-  unfold parse_lossy1. rewrite (lossy_reread _ Hcp). cbn [of_res]. rewrite (reread_lossy _ _ Hg). reflexivity.
+  unfold parse_lossy1. rewrite (lossy_reread_l _ Hcp). cbn [of_res]. rewrite (reread_lossy _ _ Hg). reflexivity.
 Qed.
 
 (* ================================================================== APT sources list *)
 Definition goodR (r : sval) : Prop := good true fs_repository r /\ exists k, In k (present_keys E fs_repository r).
 
-Lemma collect_good ps : forall vs, ext_stable true (ext_ids fs_repository) -> (forall p, In p ps -> para_dom p) ->
+Lemma collect_good ps : forall vs, ext_stable true (ext_ids fs_repository) ->
+  (forall p, In p ps -> para_dom p /\ eguard fs_repository (get p) = true) ->
   collect_paras E ext_parse fs_repository ps = TOk vs -> Forall goodR vs.
 Proof.
   induction ps as [|p r IH]; intros vs He Hd H; cbn [collect_paras] in H.
@@ -538,7 +573,7 @@ Proof.
   - destruct (from_ll fs_repository p) as [v|] eqn:Ev; cbn [of_dres] in H; [|discriminate].
     destruct (collect_paras E ext_parse fs_repository r) as [vs'| | |] eqn:Er; cbn [tbind] in H; try discriminate. injection H as <-.
     constructor; [|apply IH; [exact He|intros q Hq; apply Hd; right; exact Hq|reflexivity]].
-    split; [eapply read_ll_good; [apply ok_repository|exact He|apply no_hash_guard, nh_repository|apply Hd; left; reflexivity|exact Ev]|].
+    split; [eapply read_ll_good; [apply ok_repository|exact He|apply (Hd p); left; reflexivity|apply no_hash_guard, nh_repository|apply (Hd p); left; reflexivity|exact Ev]|].
     destruct (has_mandatory_key _ hm_repository) as (k & Hk). exists k. rewrite from_ll_fields in Ev. eapply read_mandatory_present; eassumption.
 Qed.
 Lemma collect_reread ps : forall vs, Forall2 (fun p v => ll_shows (items_of fs_repository v) p) ps vs -> Forall goodR vs ->
@@ -550,12 +585,15 @@ Proof.
 Qed.
 
 Theorem repositories_stable s rs :
-  ext_stable true (ext_ids fs_repository) -> parse_repositories E ext_parse s = TOk rs ->
+  ext_stable true (ext_ids fs_repository) ->
+  (forall t, from_str s = Ok t -> forallb (fun p => eguard fs_repository (get p)) (paragraphs t) = true) ->
+  parse_repositories E ext_parse s = TOk rs ->
   exists t, print_repositories E ext_print rs = Some t /\ parse_repositories E ext_parse t = TOk rs.
 Proof.
-  intros He H. unfold parse_repositories in H. destruct (from_str s) as [t0| | |] eqn:Es; try discriminate. cbn [of_res] in H.
-  assert (Hd : forall p, In p (paragraphs t0) -> para_dom p).
-  { intros p Hp k x Hg. cbn [dom]. eapply strict_parse_get_dom; eassumption. }
+  intros He HG H. unfold parse_repositories in H. destruct (from_str s) as [t0| | |] eqn:Es; try discriminate. cbn [of_res] in H.
+  specialize (HG t0 eq_refl).
+  assert (Hd : forall p, In p (paragraphs t0) -> para_dom p /\ eguard fs_repository (get p) = true).
+  { intros p Hp. split; [intros k x Hg; cbn [dom]; eapply strict_parse_get_dom; eassumption|]. rewrite forallb_forall in HG. apply HG. exact Hp. }
   pose proof (collect_good _ _ He Hd H) as Hg.
   set (D := map (items_of fs_repository) rs).
   assert (Hprint : print_repositories E ext_print rs = Some (print_doc D)).
@@ -564,10 +602,18 @@ Proof.
     - intros b Hb. rewrite Forall_forall in Hg. apply (good_print true). apply (Hg b Hb). }
   assert (Hcanon : canon_doc D = true).
   { unfold D, canon_doc. rewrite forallb_map'. apply forallb_forall. intros b Hb. rewrite Forall_forall in Hg.
-    destruct (Hg b Hb) as [G (k & K)]. eapply good_nonempty; eassumption. }
+    destruct (Hg b Hb) as [Gd (k & K)]. eapply good_nonempty; eassumption. }
   destruct (ll_reread D Hcanon) as (t' & Ht' & Hitems).
   exists (print_doc D). split; [exact Hprint|]. unfold parse_repositories. rewrite Ht'. cbn [of_res].
   unfold D in Hitems. apply map_eq_Forall2 in Hitems. apply Forall2_map_r in Hitems. apply collect_reread; [exact Hitems|exact Hg].
 Qed.
 
 End Ext.
+
+(* without guards *)
+Lemma control_guard_true p : control_guard (fun _ _ => true) p = true.
+Proof. unfold control_guard. destruct (get p k_Package); [apply ext_guard_true|]. destruct (get p k_Source); [apply ext_guard_true|reflexivity]. Qed.
+Lemma copyright_guard_true p : copyright_guard (fun _ _ => true) p = true.
+Proof. unfold copyright_guard. destruct (get p k_Files); [apply ext_guard_true|]. destruct (get p k_License); [apply ext_guard_true|reflexivity]. Qed.
+Lemma forallb_all {A} (f : A -> bool) l : (forall x, f x = true) -> forallb f l = true.
+Proof. intros H. apply forallb_forall. intros x _. apply H. Qed.
